@@ -372,9 +372,12 @@ def explore_hdd(M, syms, max_dev, v):
         nodes += D - L + 1
         edges += (D - L + 1) if L else D
         depth = max(depth, D)
-        how = f'answers(index into candidates)={tuple(rng.answers)} decisions={[(f, list(c)[:16]) for f, c in dec][:12]}'
-        hdd_outcome_oracle(M, syms, outcome, how, v)
-        request_oracle(M, syms, dec, how, v)
+        nv = len(v)
+        hdd_outcome_oracle(M, syms, outcome, '@HOW@', v)
+        request_oracle(M, syms, dec, '@HOW@', v)
+        if len(v) > nv:     # describe the script only when something failed (keeps the per-leaf cost low)
+            how = f'answers(index into candidates)={tuple(rng.answers)} decisions={[(f, list(c)[:16]) for f, c in dec][:12]}'
+            v[nv:] = [(k, m.replace('@HOW@', how)) for k, m in v[nv:]]
         outcomes.add(tuple(outcome[1]) if outcome[0] == 'ok' else outcome[:2])
         ndev = sum(1 for a in prefix if a)
         ans = tuple(rng.answers)
@@ -682,18 +685,22 @@ def hdd_spaces(tier):
             for n in ns:
                 parts.append((f'hdd.dev2.M{M}.n{n}', [('hdd', M, s, 2, ()) for s in all_patterns(M, n)], 60))
     else:
-        parts.append(('hdd.dev1.M2.n9', [('hdd', 2, s, 1, ()) for s in all_patterns(2, 9)], 60))
+        for n in (9, 10):
+            parts.append((f'hdd.dev1.M2.n{n}', [('hdd', 2, s, 1, ()) for s in all_patterns(2, n)], 60))
     # (c) large orders and long sequences: symbols from a kinds alphabet, deviation-bounded
     for M in ORDERS[3:]:
         kinds = symbol_kinds(M)
         for n in (1, 2, 3):
+            if quick and n == 3 and M > 64:
+                continue
             dev = None if n == 1 else (1 if quick else (None if n == 2 else 1))
             name = f'hdd.kinds.M{M}.n{n}.' + ('full' if dev is None else f'dev{dev}')
             parts.append((name, [('hdd', M, s, dev, ()) for s in itertools.product(kinds, repeat=n)], 120))
-    for M in (4, 8):
+    long_seq = [(4, 5, 1), (8, 3, 2), (8, 4, 2)] if quick else [(4, 5, 2), (4, 6, 2), (8, 3, None), (8, 4, 2), (8, 5, 2)]
+    for M, n, dev in long_seq:
         kinds = symbol_kinds(M)
-        n, dev = (5, 2) if quick else (6, 2)
-        parts.append((f'hdd.kinds.M{M}.n{n}.dev{dev}', [('hdd', M, s, dev, ()) for s in itertools.product(kinds, repeat=n)], 60))
+        name = f'hdd.kinds.M{M}.n{n}.' + ('full' if dev is None else f'dev{dev}')
+        parts.append((name, [('hdd', M, s, dev, ()) for s in itertools.product(kinds, repeat=n)], 60))
     return parts
 
 
